@@ -21,7 +21,7 @@ EXPLANATION = (
     "Bounds: n<=3 (quick) / n<=4, random and nested n<=5 (thorough); |values| <= 1e6; real arithmetic (tolerance 1e-9 relative). Outside: n>5, float rounding."
 )
 ASSUMPTIONS = ["coverage vector in [0,1]^n, |baseline|,|outcomes| <= 1e6", "floats modelled as reals; tolerance 1e-9 relative separates rounding from violations"]
-GROUP_TIMEOUT = {"quick": 600, "thorough": 9000}
+GROUP_TIMEOUT = {"quick": 1500, "thorough": 9000}
 
 
 def _patches():
